@@ -77,7 +77,14 @@ pub fn generate(seed: u64, tier: &str, sink: &mut Sink) {
             compress: false,
             proxy: ProxyCfg { http: None, https: None, no_proxy: vec![] },
             params: vec![],
-            pre: vec![],
+            // the caller (or a session default) may already have set a Content-Type: the form's own,
+            // with its boundary, must still be the one announced
+            pre: match rng.below(6) {
+                0 => vec![Step::Header("Content-Type".into(), b"application/json".to_vec())],
+                1 => vec![Step::Header("content-type".into(), b"multipart/form-data".to_vec())],
+                2 => vec![Step::Append("Content-Type".into(), b"text/plain".to_vec()), Step::Header("X-Other".into(), b"1".to_vec())],
+                _ => vec![],
+            },
             body: BodyR::Multipart { texts: texts.clone(), files: files.clone() },
             post: vec![],
             hops: vec![(vec![Seg::Data(OK_RESPONSE.to_vec())], None)],
